@@ -9,6 +9,7 @@ from vlib.harness import Violation
 ID = 'C20'
 LEVEL = 'exploration'
 CONTAINERS = ['array', 'list', 'hdf5']
+CONTAINERS_GEN = ['array', 'list', 'hdf5', 'array_i4bounds', 'array_u8bounds', 'hdf5_gzip', 'array_view', 'array_window', 'hdf5_window']
 RULE = ('Exhaustive: for collections of length n=0..4 (quick) / 0..6 (thorough) in each of SignatureArray, SignatureList and '
         'file-backed HDF5Signatures: every int index in -n-2..n+1 (Python and NumPy ints), every slice with start/stop in '
         '{None,-n-2..n+2} and step in {None,0,+-1..+-(n+1)}, every index list of length <= 3 over -n-1..n (as list, tuple, int64/int32 '
@@ -47,6 +48,26 @@ def get_container(ctx, kind, lens, dtype='u2', k=5, prefix='AT'):
 	sigs = make_sigs(np, lens, dtype)
 	if kind == 'array':
 		c = SignatureArray(sigs, spec, dtype=np.dtype(dtype))
+	elif kind in ('array_i4bounds', 'array_u8bounds'):
+		tmp = SignatureArray(sigs, spec, dtype=np.dtype(dtype))
+		c = SignatureArray.from_arrays(tmp.values, tmp.bounds.astype('i4' if kind == 'array_i4bounds' else 'u8'), spec)
+	elif kind in ('array_window', 'hdf5_window'):
+		pad = [np.array([7, 8, 9], dtype=dtype), np.array([5], dtype=dtype)]
+		big = SignatureArray(pad + sigs + pad, spec, dtype=np.dtype(dtype))
+		c = SignatureArray.from_arrays(big.values, big.bounds[2:2 + len(sigs) + 1], spec)   # bounds[0] != 0
+		if kind == 'hdf5_window':
+			path = ctx.fresh_path('.gs')
+			dump_signatures(path, c)
+			c = load_signatures(path)
+	elif kind == 'array_view':
+		# a SignatureArray that is itself a contiguous slice (view) of a larger one
+		pad = [np.array([7, 8, 9], dtype=dtype)]
+		big = SignatureArray(pad + sigs + pad, spec, dtype=np.dtype(dtype))
+		c = big[1:len(sigs) + 1]
+	elif kind == 'hdf5_gzip':
+		path = ctx.fresh_path('.gs')
+		dump_signatures(path, SignatureList(sigs, spec, dtype=np.dtype(dtype)), compression='gzip')
+		c = load_signatures(path)
 	elif kind == 'list':
 		c = SignatureList(sigs, spec, dtype=np.dtype(dtype))
 	else:
@@ -561,7 +582,7 @@ def gen_case(draw, tier):
 	lens_st = st.lists(st.integers(0, 4), min_size=0, max_size=draw(st.sampled_from([3, 8, 40])))
 	if which == 'expr':
 		lens = draw(lens_st)
-		return {'kind': 'expr', 'container': draw(st.sampled_from(CONTAINERS)), 'lens': lens,
+		return {'kind': 'expr', 'container': draw(st.sampled_from(CONTAINERS_GEN)), 'lens': lens,
 		        'dtype': draw(st.sampled_from(['u2', 'u2', 'u4', 'u8', 'i8'])), 'expr': draw(expr_strategy(len(lens)))}
 	if which == 'eq':
 		lens = draw(lens_st)
